@@ -6,7 +6,7 @@ Driver lane `c18pipe`: a scripted call (`Req.Pipeline.Stack`) → the caller-vis
 the per-attempt invocation log.
 
 ```
-c18pipe <fixes> <entry> <flags> <udReq> <builtin> <wrappers> <getBody> <transport> <clientResp> <reqResp> <retry> [<outFails>]
+c18pipe <fixes> <entry> <flags> <udReq> <builtin> <wrappers> <getBody> <transport> <clientResp> <reqResp> <retry> [<outFails> [<hooks>]]
   fixes      3 or 4 bits  keepErr nilGuard digestRebind [digestSave]   ("1111" = repaired code)
   entry      d | s | v | m                                   (Do, Send, verb helper, Must*)
   flags      7 or 8 bits  builderErr unreplayable successTarget errorTarget commonErr autoRead hook [save]
@@ -23,6 +23,7 @@ c18pipe <fixes> <entry> <flags> <udReq> <builtin> <wrappers> <getBody> <transpor
              maxRetries = n | u<fuel> (SetRetryCount(-1): unbounded; fuel = attempts the script describes)
              ctxDone = bits, one per attempt: the context is done at the wait after that attempt
   outFails   bits, one per attempt: creating / writing the output fails ("-" = never)
+  hooks      <OnError hook>:<retry hooks per attempt ','>   act = n | s<err> (resp.Err = err) | c (resp.Err = nil)
 ```
 -/
 namespace Req.Driver.L.C18
@@ -115,6 +116,21 @@ def parseRetry (s : String) : Option Retry :=
   | [n, c, x] => go n c x
   | _ => none
 
+def parseHookAct (s : String) : Option HookAct :=
+  if s == "n" then some .nop
+  else if s == "c" then some .clear
+  else if s.startsWith "s" then (parseErr1 (s.drop 1).toString).map .set
+  else none
+
+/-- `<OnError hook act>:<retry hook acts, one per attempt, ','>` (`n` | `s<err>` | `c`; `-` = none) -/
+def parseHooks (s : String) : Option (HookAct × List HookAct) :=
+  match s.splitOn ":" with
+  | [h, rh] =>
+    match parseHookAct h, (splitList "," rh).mapM parseHookAct with
+    | some h, some rh => some (h, rh)
+    | _, _ => none
+  | _ => none
+
 def parseStack12 : List String → Option (Fixes × Stack)
   | [fx, en, fl, ud, bi, wr, gb, tr, cr, rr, rt, ofl] =>
     match parseBits fx, parseEntry en, parseBits fl, parseStages parseReqAct ud, parseAtts parseReqAct bi,
@@ -141,8 +157,17 @@ def parseStack12 : List String → Option (Fixes × Stack)
     | _, _, _, _, _, _, _, _, _, _, _, _ => none
   | _ => none
 
+def parseStack13 : List String → Option (Fixes × Stack)
+  | [fx, en, fl, ud, bi, wr, gb, tr, cr, rr, rt, ofl, hk] =>
+    match parseStack12 [fx, en, fl, ud, bi, wr, gb, tr, cr, rr, rt, ofl], parseHooks hk with
+    | some (f, s), some (h, rh) => some (f, { s with hookAct := h, retryHooks := rh })
+    | _, _ => none
+  | _ => none
+
 def parseStack (args : List String) : Option (Fixes × Stack) :=
-  if args.length = 11 then parseStack12 (args ++ ["-"]) else parseStack12 args
+  if args.length = 11 then parseStack13 (args ++ ["-", "n:-"])
+  else if args.length = 12 then parseStack13 (args ++ ["n:-"])
+  else parseStack13 args
 
 def showEv : Ev → Option String
   | .udReq i => some ("u" ++ toString i)
